@@ -28,7 +28,7 @@ pub fn generic_and_family_stats(
     // depth = number of construction steps (fields added + further instantiations added)
     let budget = Budget {
         max_depth: if thorough { 3 } else { 2 },
-        wall: Duration::from_secs(if thorough { 900 } else { 40 }),
+        wall: Duration::from_secs(if thorough { 900 } else { 150 }),
         max_states: 40_000_000,
     };
     out.push(explore(&d, &budget, seed, |s, ctx| {
@@ -65,7 +65,7 @@ pub fn generic_and_family_stats(
     };
     let budget = Budget {
         max_depth: 5,
-        wall: Duration::from_secs(if thorough { 900 } else { 40 }),
+        wall: Duration::from_secs(if thorough { 900 } else { 150 }),
         max_states: 40_000_000,
     };
     out.push(explore(&f, &budget, seed, |s, ctx| {
